@@ -436,7 +436,7 @@ class Respell:
                 return "\\k<n%d>" % g
             if m == "pnamed":
                 return "(?P=n%d)" % g
-            if m == "rel":
+            if m in ("rel", "relmix"):
                 return "\\k<-%d>" % (self.count - g + 1)
             return "\\%d" % g if ctx != 1 else "(?:\\%d)" % g
         if k == "condg0":
@@ -450,7 +450,7 @@ class Respell:
         if k == "grp":
             self.count += 1
             g = self.count
-            if m == "named":
+            if m == "named" or (m == "relmix" and g % 2 == 1):
                 return "(?<n%d>%s%s)" % (g, self.ws(), self.show(t[1], 0))
             if m == "pnamed":
                 return "(?P<n%d>%s%s)" % (g, self.ws(), self.show(t[1], 0))
@@ -539,7 +539,8 @@ def run_c19(tier, seed, replay=None):
         fixed = [("(?x) \\d   # digits\n     +   # one or more\n", "\\d+", "x"), ("(?x)\n  # c1\n  # c2\n  a", "a", "x"), ("(?x) foo | # first\n # second\n bar", "foo|bar", "x"),
                  ("(?x) a{2, # at least two\n      3  # at most three\n   }", "a{2,3}", "x"), ("a(?#comment)b", "ab", "x"), ("\\h", "[0-9A-Fa-f]", "esc"), ("\\H", "[^0-9A-Fa-f]", "esc"),
                  ("\\e", "\\x1B", "esc"), ("\\Aa\\z", "^a$", "esc"), ("(?>a*)", "a*+", "poss"), ("(?>a{2,3}?)b", "a{2,3}?+b", "poss"), ("(a)(b)\\k<-2>", "(a)(b)\\1", "rel"),
-                 ("(?<x>a)\\k<x>", "(a)\\1", "named"), ("(?P<x>a)(?P=x)", "(a)\\1", "pnamed"), ("(?i:a)b", "(?:(?i)a)b", "flag"), ("(?x: a b )", "ab", "x"),
+                 ("(?<x>a)\\k<x>", "(a)\\1", "named"), ("(?P<x>a)(?P=x)", "(a)\\1", "pnamed"), ("(?i:a)b", "(?:(?i)a)b", "flag"), ("(?x: a b )", "ab", "x"), ("(?x)a b # tail", "ab", "x"), ("(?x)a* # ?", "a*", "x"), ("(?x) (a) \\1 # [", "(a)\\1", "x"),
+                 ("(?<x>a)(b)\\k<-1>", "(a)(b)\\2", "rel"), ("(a)(?<y>b)(c)\\k<-1>", "(a)(b)(c)\\3", "rel"), ("(?<x>a)(b)?(?(<-1>)c|d)", "(a)(b)?(?(2)c|d)", "rel"),
                  # possessive vs atomic under the swap-greed flag
                  ("(?U)(?>a*)", "(?U)a*+", "poss"), ("(?U)(?>a+)b", "(?U)a++b", "poss"), ("(?U:(?>a*))b", "(?U:a*+)b", "poss"), ("(?U)(?>a*?)", "(?U)a*?+", "poss"), ("(?U)x(?>\\d+)", "(?U)x\\d++", "poss"),
                  # an escaped metacharacter and its hex / unicode escape, with and without (?i)
@@ -560,7 +561,7 @@ def run_c19(tier, seed, replay=None):
             if has(t, ("grp",)) and not has(t, ("nbref",)):
                 modes += ["named", "pnamed"]
                 if has(t, ("bref",)):
-                    modes += ["rel"]
+                    modes += ["rel", "relmix"]
             if has(t, ("flag",)):
                 modes += ["flag"]
             if has(t, ("rep",)):
@@ -569,7 +570,8 @@ def run_c19(tier, seed, replay=None):
                 rs = Respell(r, m)
                 alt = rs.show(t, 0)
                 if m == "x":
-                    alt = "(?x)" + rs.ws() + alt + rs.ws()
+                    # a line comment may also run to the very end of the pattern, with no newline after it
+                    alt = "(?x)" + rs.ws() + alt + rs.ws() + r.choice(["", "", " # tail", "#", " # (", "\t# ?"])
                 if m in ("named", "pnamed") and has(t, ("bref", "condg", "condg0")) is False and m != "named":
                     pass
                 pairs.append((base, alt, m))
